@@ -98,10 +98,12 @@ Init == IF Wide THEN ((tree \in WideTrees /\ layout \in Layouts) \/ (tree \in Bi
 Next == UNCHANGED <<tree, layout>>
 
 Text == RenderL(tree, layout)
-Case == LET x == Text r == ParseText(x) IN
+\* (bound variables force one evaluation of the text and of its parse; LET definitions are re-evaluated at each use)
+CaseOf(x, r) ==
   [t |-> x, ok |-> r.ok, why |-> r.why, at |-> r.i - 1, scope |-> FaultScope(x, r.why), v |-> r.v,
    nodes |-> TreeNodes(tree), layout |-> layout]
-Emit == CSVWrite("%1$s", <<ToJson(Case)>>, IOEnv.OUT)
+Case == CaseOf(Text, ParseText(Text))
+Emit == \A x \in {Text} : \A r \in {ParseText(x)} : CSVWrite("%1$s", <<ToJson(CaseOf(x, r))>>, IOEnv.OUT)
 
 \* every rendered tree is a JSON text unless it contains an overflowing number (none in the pools)
 SpecRoundTrip == ParseText(Text).ok
